@@ -138,7 +138,26 @@ def gen_map_spec(rng, game, max_rows=5, allow_empty=True):
                     r["offset"] += 250.0
                 seen.add(r["offset"])
         spec["lists"][name] = {"rows": rows, "labels": rng.choice(["default", "default", "shifted", "shuffled"])}
+    # one chart in five is built from item objects with whole-number values given as Python ints: its time columns
+    # are integer-typed, as in charts written in code rather than parsed
+    if rng.random() < 0.2:
+        spec["build"] = "items_int"
+        for ls in spec["lists"].values():
+            for r in ls["rows"]:
+                for k in ("offset", "length", "bpm"):
+                    if k in r:
+                        r[k] = float(int(r[k]))
     return spec
+
+
+def _as_int_items(lst, rows):
+    """the list built from item objects with Python ints (as in the library's own examples): integer-typed columns"""
+    items = []
+    for r in rows:
+        r = {k: (v[6:].encode() if isinstance(v, str) and v.startswith("bytes:") else v) for k, v in r.items()}
+        r = {k: (int(v) if isinstance(v, float) and v == int(v) else v) for k, v in r.items()}
+        items.append(lst._item_class()(**r))
+    return type(lst)(items)
 
 
 def build_map(spec):
@@ -147,6 +166,9 @@ def build_map(spec):
     for name, ls in spec["lists"].items():
         lst = m.objs[name]
         props = lst._item_class()._props
+        if spec.get("build") == "items_int" and ls["rows"]:
+            m.objs[name] = _as_int_items(lst, ls["rows"])
+            continue
         # an empty list keeps the dtypes of cls([]) (what the public API produces)
         m.objs[name] = type(lst)(mkdf(ls["rows"], props, ls["labels"])) if ls["rows"] else type(lst)([])
     return m
